@@ -237,6 +237,19 @@ Proof.
   split; [|exact H]. apply (stuck_pc a (fst c)). apply H.
 Qed.
 
+(* unconditional part (no hypothesis on the workers, any configuration): in a stuck configuration
+   a thread that is still inside the retry_on_active = false loop re-reads a word that IS active *)
+Lemma spinner_target_active_when_stuck (c : G * (nat -> spc)) :
+  sstuck c -> forall a u, spinning (snd c a) u ->
+  u < ntasks (fst c) /\ st (tw_of (fst c) u) = st_active.
+Proof.
+  intros Hst a u Hspn. destruct (sstuck_thread c a Hst) as [[v E]|[[E|E] _]].
+  - apply spin_at_some in E. destruct E as ([_ Es] & Hl & Ha). destruct Hspn as [_ Es'].
+    rewrite Es in Es'. inversion Es'; subst. auto.
+  - destruct Hspn as [_ Es]. rewrite E in Es. discriminate.
+  - destruct Hspn as [_ Es]. rewrite E in Es. discriminate.
+Qed.
+
 (* the stuck-state theorem of the layer.  w is a worker of the pool that is not itself spinning
    (see Model/SchedSpinWaker.v: a spinning TASK keeps its worker in this model; in the code its
    yield_k gives the worker up) *)
